@@ -29,28 +29,39 @@ def rule_declare_path(check):
     R = "DECLARE-PATH"
     check.rule(R, "temporaries are created only in get_temporal_ident_used_in_assignation, which registers every identifier it returns; the registered list of the block's provider is what insert_variable_declaration declares with `let`; created names and the refused prefix come from the same helper")
     prog = check.prog
+    g = prog.fn("IdentProvider::get_temporal_ident_used_in_assignation")
+    # the registering helper together with the private helpers it is split into (functions nothing else calls)
+    fl_g = prog.flat(g, 2)
+    own = {g.def_path}
+    for h_ in fl_g:
+        cs_ = [cf for cf, cn in prog.sites_calling(h_) if hir.is_call(cn) and not cf.rec.get("gen") and not cf.rec.get("in_test")]
+        if h_ is not g and cs_ and all(cf.def_path in {x.def_path for x in fl_g} for cf in cs_):
+            own.add(h_.def_path)
     for name in ("next_ident", "create_assign_expression"):
         sites = [(f, n) for f, n, c in prog.call_sites() if hir.is_call(n) and c["name"] == name and not f.rec.get("gen")]
+        if not sites and name != "next_ident":
+            continue  # no such helper in this tree: the provenance clauses below speak for what replaced it
         callers = sorted({f.name for f, _ in sites})
-        want = ["get_temporal_ident_used_in_assignation"]
-        check.expect(callers == want, R, "%s/who-calls/%s" % (R, name), sites[0][1]["sp"] if sites else "-", "%s only called from %s" % (name, callers), "%s is called from %s (temporaries created outside the registering helper)" % (name, callers))
-    g = prog.fn("IdentProvider::get_temporal_ident_used_in_assignation")
+        stray = sorted({f.name for f, _ in sites if f.def_path not in own})
+        check.expect(bool(sites) and not stray, R, "%s/who-calls/%s" % (R, name), sites[0][1]["sp"] if sites else "-", "%s only called from %s" % (name, callers), "%s is called from %s (temporaries created outside the registering helper)" % (name, stray or callers))
     pv = Prov(prog)
     # every created temporary is registered on the path that creates it (what is returned is FRESH-TEMP's concern, C01-C03)
-    pvo = Prov(prog, opaque={"create_assign_expression"})
-    creates = list(hir.calls_in(g.body, name="create_assign_expression"))
+    from .. import xformrules as _X
+    chain_ = _X.temp_ident_chain(prog)
     regs = list(hir.calls_in(g.body, name="register_ident"))
-    check.floor(R, "temporaries created in the temp helper", len(creates), 1)
-    for i, c in enumerate(creates):
-        cc = [x for x in g.conds_at(c) if x["t"] not in ("closure",)]
+    check.floor(R, "temporaries created in the temp helper", len([1 for rec_ in chain_ if rec_["idents"]]), 1)
+    for i, rec_ in enumerate(chain_):
+        keys_ = {(r_[0], r_[1], r_[2], r_[3]) for _h, _n, r_ in rec_["idents"]}
+        if not keys_:
+            continue  # nothing is created on this path (what it hands out instead is FRESH-TEMP's concern)
         ok = False
         for rg in regs:
-            same_conds = [x for x in g.conds_at(rg) if x["t"] not in ("closure",)] == cc
-            ro = pvo.origins(g, hir.call_args(rg)[1])
-            from_create = bool(ro) and all(rt[0] == "call" and len(rt) > 3 and rt[3] == c["id"] and tuple(str(x) for x in pj[:1]) == ("1",) for rt, pj in ro)
-            if same_conds and from_create:
+            same_conds = [x for x in g.conds_at(rg) if x["t"] not in ("closure",)] == rec_["conds"]
+            ro = rec_["pv"].origins(g, hir.call_args(rg)[1])
+            same_ident = bool(ro) and {(rt[0], rt[1], rt[2], rt[3]) for rt, _pj in ro if len(rt) > 3} == keys_ and all(len(rt) > 3 for rt, _pj in ro)
+            if same_conds and same_ident and keys_:
                 ok = True
-        check.expect(ok, R, R + "/registered" + ("-%d" % i if i else ""), hir.loc(c), "the identifier created here is registered on the same path", "get_temporal_ident_used_in_assignation creates an identifier that is not registered (undeclared temporary)")
+        check.expect(ok, R, R + "/registered" + ("-%d" % i if i else ""), hir.loc(rec_["ret"]), "the identifier created here is registered on the same path", "get_temporal_ident_used_in_assignation creates an identifier that is not registered (undeclared temporary)")
     # default provider stores registered idents
     ri = prog.fn("DefaultIdentProvider as visitor::ident_provider::IdentProvider>::register_ident") if False else _impl_method(prog, "DefaultIdentProvider", "register_ident")
     pushes = [n for n in hir.calls_in(ri.body, name="push") if (hir.place(hir.call_args(n)[0]) or "").endswith(".idents")]
@@ -120,10 +131,11 @@ def rule_declare_path(check):
     sw = [n for n in hir.calls_in(dup.body, name="starts_with")]
     ok = len(uses2) == 1 and len(sw) == 1 and (hir.place(hir.call_args(sw[0])[0]) or "").endswith(".sym")
     check.expect(ok, "SIBLING", "SIBLING/refused-prefix", hir.loc(dup.rec), "collision test = sym.starts_with(get_dd_local_variable_prefix(prefix))", "collision test does not compare sym with the shared prefix helper")
-    ca = prog.fn("IdentProvider::create_assign_expression")
-    names = [n for n in hir.calls_in(ca.body, name="get_dd_local_variable_name")]
+    # the call that names the temporaries (found through the provenance of what the temp helper returns)
+    names = [cn_ for rec_ in chain_ for _hn, cn_, _r in rec_["namers"] if cn_ is not None]
+    names = list({id(x): x for x in names}.values())
     ok = len(names) == 1 and any(hir.callee_name(x) == "get_local_var_prefix" for x in hir.walk(names[0]) if hir.is_call(x))
-    check.expect(ok, "SIBLING", "SIBLING/created-name", hir.loc(ca.rec), "name = get_dd_local_variable_name(index, provider prefix)", "temporary name is not built by get_dd_local_variable_name from the provider's prefix")
+    check.expect(ok, "SIBLING", "SIBLING/created-name", hir.loc(names[0]) if names else "-", "name = get_dd_local_variable_name(index, provider prefix)", "temporary name is not built by get_dd_local_variable_name from the provider's prefix")
     for n in decl:
         pass
     vbs = f
@@ -190,6 +202,13 @@ def rule_target_kept(check):
                 continue
             n += 1
             e = hir.peel_transparent(left[0])
+            # `let left = assign.left.clone(); AssignExpr { left, .. }`: look through single-assignment locals
+            for _ in range(4):
+                l_ = hir.local_of(e)
+                b_ = f.bindings().get(l_[0]) if l_ else None
+                if not b_ or b_["origin"][0] != "let" or b_["origin"][1] is None or b_["origin"][2] or f.assignments_to(l_[0]):
+                    break
+                e = hir.peel_transparent(b_["origin"][1])
             kind = None
             # a copy of the left of an input assignment
             if e.get("k") == "Field" and e["field"] == "left" and "AssignExpr" in (e.get("base_ty") or ""):
@@ -595,29 +614,25 @@ def rule_counter(check):
     rc = _impl_method(prog, "DefaultIdentProvider", "reset_counter")
     z = [n for n in rc.nodes() if n.get("k") == "Assign" and hir.lit_value(n["r"]) == 0]
     check.expect(len(z) == 1, R, R + "/reset", hir.loc(rc.rec), "reset_counter sets 0", "reset_counter does not set the counter to 0")
-    g = prog.fn("IdentProvider::get_temporal_ident_used_in_assignation")
-    cae = [n for n in hir.calls_in(g.body, name="create_assign_expression")]
-    ok = len(cae) == 1
-    if ok:
-        o = pv.origins(g, hir.call_args(cae[0])[1])
-        ok = all(r[0] == "call" and r[1].split("::")[-1] == "next_ident" for r, p in o) and bool(o)
-    check.expect(ok, R, R + "/index-from-counter", hir.loc(g.rec), "the name index is the number just drawn", "create_assign_expression is not fed the number returned by next_ident")
-    ca = prog.fn("IdentProvider::create_assign_expression")
-    names = [n for n in hir.calls_in(ca.body, name="get_dd_local_variable_name")]
-    ok = len(names) == 1 and all(r[0] == "param" and r[2] == 1 for r, p in pv.origins(ca, hir.call_args(names[0])[0]))
-    check.expect(ok, R, R + "/name-from-index", hir.loc(ca.rec), "name = prefix + index parameter", "the temporary name is not built from the index parameter")
+    from .. import xformrules as _X
+    chain_ = _X.temp_ident_chain(prog)
+    recs_ = [rec_ for rec_ in chain_ if rec_["idents"]]
+    ok = bool(recs_) and all(rec_["counters"] and not [o_ for o_ in rec_["other"] if o_.startswith("index ")] for rec_ in recs_)
+    check.expect(ok, R, R + "/index-from-counter", hir.loc(chain_[0]["g"].rec) if chain_ else "-", "the name index is the number just drawn", "the name of a temporary is not built from the number returned by next_ident (%s)" % sorted({o_ for rec_ in recs_ for o_ in rec_["other"]}))
+    ok = bool(recs_) and all(rec_["namers"] and not [o_ for o_ in rec_["other"] if o_.startswith("name ")] for rec_ in recs_)
+    check.expect(ok, R, R + "/name-from-index", hir.loc(chain_[0]["g"].rec) if chain_ else "-", "name = get_dd_local_variable_name(index, prefix)", "the temporary name is not built by get_dd_local_variable_name from the index (%s)" % sorted({o_ for rec_ in recs_ for o_ in rec_["other"]}))
     nm = prog.fn("visitor_util::get_dd_local_variable_name")
     from .. import fmtargs
 
     fm = fmtargs.formats_in(nm)
     ok = len(fm) == 1 and [k for k, v in fm[0][1]] == ["arg", "arg"] and hir.local_of(fm[0][1][1][1]) and nm.bindings()[hir.local_of(fm[0][1][1][1])[0]]["origin"][:2] == ("param", 0)
     check.expect(bool(ok), R, R + "/name-format", hir.loc(nm.rec), "name = <prefix><n>", "get_dd_local_variable_name does not append the number to the prefix")
-    ids = [n for n in hir.walk(ca.body) if n.get("k") == "Struct" and (n["res"].get("path") or "").endswith("swc_ecma_ast::Ident")]
-    ok = len(ids) == 1
-    if ok:
-        flds = {x["name"]: x["e"] for x in ids[0]["fields"]}
-        ok = (hir.def_path_of(flds["span"]) or "").endswith("DUMMY_SP")
-    check.expect(ok, R, R + "/dummy-span", hir.loc(ca.rec), "injected identifiers carry DUMMY_SP (what the collision check uses to tell them from user identifiers)", "injected identifiers no longer carry DUMMY_SP: the collision check treats them as user identifiers")
+    ids = [(h_, n_) for rec_ in recs_ for h_, n_, _r in rec_["idents"]]
+    ok = bool(ids)
+    for h_, n_ in ids:
+        flds = {x["name"]: x["e"] for x in n_["fields"]}
+        ok = ok and (hir.def_path_of(flds.get("span") or {}) or "").endswith("DUMMY_SP")
+    check.expect(ok, R, R + "/dummy-span", hir.loc(ids[0][1]) if ids else "-", "injected identifiers carry DUMMY_SP (what the collision check uses to tell them from user identifiers)", "injected identifiers no longer carry DUMMY_SP: the collision check treats them as user identifiers")
 
 
 def rule_declare_scope(check):
